@@ -6,81 +6,21 @@ from vlib import conc
 from vlib import x_fibersync
 
 MX = ['mx.lockStart', 'mx.lockAcq', 'mx.lockAcq.relock', 'mx.lockPark', 'mx.lockPark.relock', 'mx.tryOk', 'mx.tryFail',
-      'mx.unlock.none', 'mx.unlock.wake', 'mx.tlfFast', 'mx.tlfPark', 'mx.tlfPark.d8', 'mx.tlfWokenAcq',
-      'mx.tlfWokenAcq.barge', 'mx.tlfTimeout', 'mx.cvWait', 'mx.cvWaitFor', 'mx.cvWaitFor.d8', 'mx.cvTimeout',
-      'mx.notifyOne.none', 'mx.notifyOne.wake', 'mx.notifyAll', 'mx.sleepStart', 'mx.sleepWake', 'mx.finish']
-RM = ['rm.lockFast', 'rm.lockFast.again', 'rm.lockPark', 'rm.tryOk', 'rm.tryOk.again', 'rm.tryFail', 'rm.unlock.last',
-      'rm.unlock.inner', 'rm.tlfFast', 'rm.tlfPark', 'rm.tlfTimeout', 'rm.sleepStart', 'rm.sleepWake', 'rm.finish']
-SM = ['sm.xFast', 'sm.xPark', 'sm.xWokenAcq', 'sm.xWokenAcq.barge', 'sm.tryXOk', 'sm.tryXFail', 'sm.unlock.none',
-      'sm.unlock.wake', 'sm.unlock.shared', 'sm.sFast', 'sm.sPark', 'sm.sWokenAcq', 'sm.sWokenAcq.barge', 'sm.trySOk',
-      'sm.trySFail', 'sm.unlockS.none', 'sm.unlockS.wake', 'sm.unlockS.inner', 'sm.txFast', 'sm.txPark', 'sm.txWokenAcq',
-      'sm.txWokenAcq.barge', 'sm.txTimeout', 'sm.tsFast', 'sm.tsPark', 'sm.tsWokenAcq', 'sm.tsWokenAcq.barge',
-      'sm.tsTimeout', 'sm.sleepStart', 'sm.sleepWake', 'sm.finish']
+      'mx.unlock.none', 'mx.unlock.wake', 'mx.tlfFast', 'mx.tlfPark', 'mx.tlfPark.now', 'mx.tlfRecheckAcq', 'mx.tlfRepark',
+      'mx.tlfTimeout', 'mx.cvWait', 'mx.cvWaitFor', 'mx.cvWaitFor.now', 'mx.cvTimeout', 'mx.notifyOne.none',
+      'mx.notifyOne.wake', 'mx.notifyAll', 'mx.sleepStart', 'mx.sleepWake', 'mx.finish']
+RM = ['rm.lockFast', 'rm.lockFast.again', 'rm.lockPark', 'rm.lockRecheckAcq', 'rm.lockRepark', 'rm.tryOk', 'rm.tryOk.again',
+      'rm.tryFail', 'rm.unlock.last', 'rm.unlock.last.wake', 'rm.unlock.inner', 'rm.tlfFast', 'rm.tlfPark', 'rm.tlfRecheckAcq',
+      'rm.tlfRepark', 'rm.tlfTimeout', 'rm.sleepStart', 'rm.sleepWake', 'rm.finish']
+SM = ['sm.xFast', 'sm.xPark', 'sm.xRecheckAcq', 'sm.xRepark', 'sm.tryXOk', 'sm.tryXFail', 'sm.unlock', 'sm.unlock.writer',
+      'sm.unlock.readers', 'sm.unlock.readers.writer', 'sm.sFast', 'sm.sPark', 'sm.sRecheckAcq', 'sm.sRepark', 'sm.trySOk',
+      'sm.trySFail', 'sm.unlockS.none', 'sm.unlockS.wake', 'sm.unlockS.inner', 'sm.txFast', 'sm.txPark', 'sm.txRecheckAcq',
+      'sm.txRepark', 'sm.txTimeout', 'sm.tsFast', 'sm.tsPark', 'sm.tsRecheckAcq', 'sm.tsRepark', 'sm.tsTimeout',
+      'sm.sleepStart', 'sm.sleepWake', 'sm.finish']
 TH = ['th.joinStart.running', 'th.joinStart.finished', 'th.joinRet', 'th.work', 'th.finish', 'th.setP', 'th.getP.own',
-      'th.getP.default', 'th.setQ', 'th.copyQP', 'th.copyQP.same', 'th.getQ.own', 'th.getQ.default', 'th.getL', 'th.sleepStart', 'th.sleepWake']
+      'th.getP.default', 'th.setQ', 'th.copyQP', 'th.copyQP.same', 'th.getQ.own', 'th.getQ.default', 'th.getL',
+      'th.sleepStart', 'th.sleepWake']
 RULES = MX + RM + SM + TH
-# Step rules of the models that the implementation cannot reach: D4 (nobody ever notifies the recursive mutex' queue)
-# makes the continuation after the wait dead code
-UNREACHABLE = ['rm.lockWokenAcq', 'rm.tlfWokenAcq']
-# rules that exist only in the `fixed` / `patch` / `loop` variants of the models (the proposed repairs, notes/C18_proposed_patches.diff);
-# they are exercised by running the harness with `--fixed` on a library that has the patch applied (see notes/C18.md)
-REPAIRED_ONLY = ['mx.tlfRecheckAcq', 'mx.tlfRepark', 'rm.lockRecheckAcq', 'rm.lockRepark', 'rm.unlock.last.wake', 'rm.tlfRecheckAcq',
-                 'rm.tlfRepark', 'sm.unlockF.none', 'sm.unlockF.wake', 'sm.xRecheckAcq', 'sm.xRepark', 'sm.sParkF', 'sm.sRecheckAcq',
-                 'sm.sRepark', 'sm.txFastF', 'sm.txRecheckAcq', 'sm.txRepark', 'sm.tsRecheckAcq', 'sm.tsRepark']
-
-D4 = ('D4 fiber::RecursiveMutex::unlock never notifies its wait queue: a fiber blocked in recursive(_timed)_mutex::lock() '
-      'sleeps forever although the mutex was released (scenario `rec f0=L,L,U,U f1=L,U`)')
-D5 = ('D5 fiber::SharedTimedMutex::TimedWaitHelper always ends in SharedLockHelper(): an exclusive try_lock_for/until registers as '
-      'a shared owner, so try_lock_shared succeeds next to it, and its unlock() leaves _shared_owners_count at 1 '
-      '(scenario `sharedt f0=LS,US f1=F50,U f2=TS,US`)')
-D5B = ('D5 (aftermath, sequential use) after an exclusive try_lock_for + unlock and one reader the shared_timed_mutex stays _occupied '
-       'with no holder: lock() parks forever, try_lock fails (scenario `sharedt f0=F50,U f1=LS,US f2=L,U`)')
-D6T = ('D6 fiber::TimedMutex::TimedWaitHelper takes the lock after a wake-up without re-checking _occupied: two holders of a '
-       'timed_mutex after barging (scenario `timed f0=L,U f1=F50,U f2=L,U`)')
-D6S = ('D6 fiber::SharedMutex::lock / lock_shared / SharedTimedMutex::TimedWaitHelper take the lock after a wake-up without re-checking: '
-       'writer next to reader after barging (scenario `shared f0=LS,US f1=L,U f2=LS,US`)')
-D7 = ('D7 fiber::SharedMutex::lock_shared parks on the exclusive queue and unlock() wakes one fiber of it: a reader stays parked while '
-      'the lock is held by readers only (scenario `shared f0=L,U f1=LS,J2,US f2=LS,US`)')
-D567 = ('D5/D6/D7 (consequence) shared(_timed)_mutex flags no longer describe the holders after one of the defective paths was taken')
-D8 = ('D8 Scheduler::SleepPreemptive dereferences _sleep_list.end() when the jittered deadline equals the current virtual time '
-      '(the library\'s own YACLIB_DEBUG fires; scenario `timed f0=L,U f1=F0,U`)')
-D12 = ('D12 Scheduler::RunLoop calls GetNext() on an empty run queue when a stale empty sleep-list bucket older than now exists '
-       '(a timed waiter was notified before its deadline and resumed after it) and the only other fibers sleep: null dereference in '
-       'PollRandomElementFromList (scenario `cv f0=L,WF20,U f1=L,WF20,U f2=N1`)')
-D13 = ('D13 ThreadLocalPtrProxy indices are per pointee type but the TLS maps are keyed by the index alone: thread-local pointers of '
-       'different types alias (scenario `tls f0=GL,P1,GL f1=GL,G`)')
-D14 = ('D14 ThreadLocalPtrProxy::operator=(const ThreadLocalPtrProxy&) writes the process-wide default instead of the fiber\'s slot: '
-       '`q = p` leaks to other fibers (scenario `tls f0=P1,C,GQ,E,GQ f1=GQ,P2,E,GQ`)')
-D11 = ('D11 yaclib_std::condition_variable::wait_for/wait_until without predicate do not link: CVStatusFrom is declared constexpr in '
-       'fault/detail/condition_variable.hpp and defined only in src/fault/condition_variable.cpp (probe harness/c18_link.cpp)')
-
-KNOWN = [
-    dict(match=r'prim=rect? .*\| f\d+ is parked in an exclusive acquisition forever although the lock is available', what=D4),
-    dict(match=r'prim=timed .*\| incompatible holders: f\d+ acquired exclusive by try_lock_for while held by', what=D6T),
-    dict(match=r'prim=timed .*\| library assertion fired: timed_mutex\.hpp:\d+ .*about to be locked twice', what=D6T),
-    dict(match=r'prim=sharedt .*\| incompatible holders: (f\d+ acquired exclusive by try_lock_for|.*:X\d*\(try_lock_for\))', what=D5),
-    dict(match=r'prim=sharedt .*\| f\d+ is parked in an? (exclusive|shared) acquisition forever although the lock is available \(holders: none\)', what=D5B),
-    dict(match=r'prim=sharedt .*\| try_lock(_shared)? returned false although', what=D5B),
-    dict(match=r'prim=shared .*\| f\d+ is parked in a shared acquisition forever although the lock is available', what=D7),
-    dict(match=r'prim=sharedt? .*\| incompatible holders: f\d+ acquired (exclusive by lock|shared by lock_shared|shared by try_lock_shared_for) while', what=D6S),
-    dict(match=r'prim=sharedt? .*\| (incompatible holders|f\d+ is parked in an? (exclusive|shared) acquisition forever|library assertion fired: shared_timed_mutex\.hpp)', what=D567),
-    dict(match=r'\| library assertion fired: scheduler\.cpp:\d+ it == _sleep_list\.end\(\)', what=D8),
-    dict(match=r'prim=(cv|timed|rect|sharedt|thread) .*\| the library crashed with signal 11 inside the fiber scheduler', what=D12),
-    dict(match=r'prim=tls .*\| a thread-local pointer of another type', what=D13),
-    dict(match=r'prim=tls .*\| second thread-local pointer', what=D14),
-]
-
-
-def link_probe(res):
-    """D11: does a program that calls the cv_status-returning timed waits link?"""
-    try:
-        C.build_harness('c18_link', 'fiber', ['c18_link.cpp'])
-        return 'links'
-    except C.BuildError as e:
-        if 'undefined reference' in str(e) and 'CVStatusFrom' in str(e):
-            res.known_finding(D11)
-            return 'undefined reference to yaclib::detail::CVStatusFrom(WaitStatus)'
-        raise
 
 
 def extract(res):
@@ -97,6 +37,19 @@ def extract(res):
     C.write_if_changed(os.path.join(C.LEAN, 'YaclibModel/Extracted/FiberSync.lean'), text)
 
 
+def link_probe(res):
+    """regression probe for D11 (fixed 72143ee): a program that calls the cv_status-returning timed waits must link"""
+    try:
+        C.build_harness('c18_link', 'fiber', ['c18_link.cpp'])
+        return 'links'
+    except C.BuildError as e:
+        if 'undefined reference' in str(e):
+            res.violation(str(e)[-3000:], 'yaclib_std::condition_variable::wait_for/wait_until without predicate do not link '
+                          '(harness/c18_link.cpp)', name='C18_link_probe.txt')
+            return 'undefined reference'
+        raise
+
+
 def run(res, tier):
     res.assumptions += [
         'cooperative scheduler abstraction: a fiber runs atomically between switch points; any fiber that is not blocked may move next '
@@ -106,22 +59,18 @@ def run(res, tier):
         'virtual time: labels that read the clock carry the time, it never decreases; jitter of timed waits is a label parameter',
         'the harness suppresses preemptions between `call` and `ret` of an operation and offers one right after `ret` (the wrapper\'s '
         'injection points touch no shared state); blocking switches inside the primitives are all explored',
-        'fiber_dbg build: the library\'s own YACLIB_DEBUG/ASSERT are turned into callbacks and used as an extra monitor (D8)',
+        'fiber_dbg build: the library\'s own YACLIB_DEBUG/ASSERT are turned into callbacks and used as an extra monitor',
     ]
     extract(res)
     res.coverage['link_probe_cv_wait_for'] = link_probe(res)
-    stats, val = conc.concurrent_check(
+    # open findings (none for C18 at the moment) come from /verif/known_findings.json through conc.concurrent_check
+    conc.concurrent_check(
         res, 'C18', tier, 'c18.cpp', 'fibersync', RULES,
         quick_args=['--mode', 'dfs', '--pb', '2', '--wb', '0', '--max-exec', '30000', '--random-scenarios', '16'],
         thorough_args=['--mode', 'dfs', '--pb', '3', '--wb', '0', '--max-exec', '400000', '--random-scenarios', '80'],
         search_args=[['--mode', 'dfs', '--pb', '3', '--wb', '0', '--max-exec', '200000', '--random-scenarios', '40'],
                      ['--mode', 'random', '--random-runs', '5000', '--random-scenarios', '40']],
-        known=KNOWN, unmodelled_ok=UNREACHABLE, lib_kind='fiber_dbg')
-    res.coverage['rules_of_repaired_variants_not_expected_on_this_tree'] = REPAIRED_ONLY
-    seen_repaired = [r for r in REPAIRED_ONLY if (val or {}).get('rules', {}).get(r, 0) > 0]
-    if seen_repaired:
-        res.notes.append('rules of the repaired model variants were exercised: %s' % seen_repaired)
-    res.coverage['known_defects_exhibited'] = sorted({m.split(' ')[0] for m in res.known})
+        known=[], lib_kind='fiber_dbg')
 
 
 def replay(path):
